@@ -18,6 +18,11 @@
 //   h5 ticks A k n d:..   h5 interval A k d:x   h5 nointerval A k      h5 dunit A k s:u  h5 deldim A k
 //   h5 units T n s:u..    h5 nopositions M      h5 noposition T        h5 nodata F       h5 nolink F
 //   h5 notype E
+//   edits of existing entities (histories: build, validate, edit, validate again ... in one process):
+//   dnounit A k   anounit A   anopoly A   anoorigin A   dlabels A k n s:..   dticks A k n d:..   dinterval A k d:x
+//   dnooffset A k   frows F n   aextent A rank e1..   deldims A   fdata F A   mpositions M A   pnounit P
+//   pvalues P n   etype E T   unref T A   (tunits T 0 = units(none))
+//   vlive         ->  File::validate() in the session that is open, through the kept-alive handles; same answer format
 //   entities ro|rw -> every valid::validate(entity) free function on every entity (format at do_entities)
 //   validate      ->  OK <n> <E|W>:<ordinal|unknown|?id>:<s:hex message> ...   (sorted)
 //                     the file is closed, validated first in a ReadOnly session (its first observation ever), then
@@ -46,8 +51,17 @@ bool nix_open = false;
 hid_t raw = -1;
 std::vector<Ent> ents;
 
+void close_nix();
+
 void close_raw() {
     if (raw >= 0) { H5Fclose(raw); raw = -1; }
+}
+
+void drop_handles();
+
+void close_nix() {
+    drop_handles();
+    if (nix_open) { nf.close(); nix_open = false; }
 }
 
 void need_nix() {
@@ -56,7 +70,7 @@ void need_nix() {
 }
 
 void need_raw() {
-    if (nix_open) { nf.close(); nix_open = false; }
+    close_nix();
     if (raw < 0) {
         raw = H5Fopen(fname.c_str(), H5F_ACC_RDWR, H5P_DEFAULT);
         if (raw < 0) throw std::logic_error("bad: cannot open file raw");
@@ -70,10 +84,35 @@ Ent &ent(const std::string &tok) {
 }
 
 nix::Block blk(const Ent &e) { return nf.getBlock(e.chain[0]); }
-nix::DataArray arr(const Ent &e) { return nf.getBlock(e.chain[0]).getDataArray(e.chain[1]); }
+// handles of arrays, tags and multi-tags are kept alive for as long as the session lasts: edits between two
+// validations of one session go through the same handle objects, edits after a reopen through fresh ones
+std::map<const Ent *, nix::DataArray> live_arr;
+std::map<const Ent *, nix::Tag> live_tag;
+std::map<const Ent *, nix::MultiTag> live_mtag;
+nix::DataArray arr(const Ent &e) {
+    auto it = live_arr.find(&e);
+    if (it != live_arr.end()) return it->second;
+    nix::DataArray a = nf.getBlock(e.chain[0]).getDataArray(e.chain[1]);
+    live_arr[&e] = a;
+    return a;
+}
 nix::DataFrame frm(const Ent &e) { return nf.getBlock(e.chain[0]).getDataFrame(e.chain[1]); }
-nix::Tag tg(const Ent &e) { return nf.getBlock(e.chain[0]).getTag(e.chain[1]); }
-nix::MultiTag mtg(const Ent &e) { return nf.getBlock(e.chain[0]).getMultiTag(e.chain[1]); }
+nix::Tag tg(const Ent &e) {
+    auto it = live_tag.find(&e);
+    if (it != live_tag.end()) return it->second;
+    nix::Tag g = nf.getBlock(e.chain[0]).getTag(e.chain[1]);
+    live_tag[&e] = g;
+    return g;
+}
+nix::MultiTag mtg(const Ent &e) {
+    auto it = live_mtag.find(&e);
+    if (it != live_mtag.end()) return it->second;
+    nix::MultiTag g = nf.getBlock(e.chain[0]).getMultiTag(e.chain[1]);
+    live_mtag[&e] = g;
+    return g;
+}
+void drop_handles() { live_arr.clear(); live_tag.clear(); live_mtag.clear(); }
+
 nix::Source src(const Ent &e) {
     nix::Source s = nf.getBlock(e.chain[0]).getSource(e.chain[1]);
     for (size_t i = 2; i < e.chain.size(); i++) s = s.getSource(e.chain[i]);
@@ -186,30 +225,35 @@ std::string dim_path(const Ent &a, const std::string &k) {
 
 // ---- commands ----------------------------------------------------------------------------------
 
+// canonical form of a result: count, then the sorted messages with ids replaced by creation ordinals
+std::string render(const nix::valid::Result &r) {
+    std::map<std::string, size_t> ord;
+    for (size_t i = 0; i < ents.size(); i++) ord[ents[i].id] = i;
+    std::vector<std::string> lines;
+    auto one = [&](const char *k, const nix::valid::Message &m) {
+        std::string who;
+        if (m.id == "unknown") who = "unknown";
+        else if (ord.count(m.id)) who = std::to_string(ord[m.id]);
+        else who = "?" + std::to_string(m.id.size());     // an id the script never created
+        lines.push_back(std::string(k) + ":" + who + ":" + enc_str(m.msg));
+    };
+    for (auto &m : r.getErrors()) one("E", m);
+    for (auto &m : r.getWarnings()) one("W", m);
+    std::sort(lines.begin(), lines.end());
+    std::string out = std::to_string(lines.size());
+    for (auto &l : lines) out += " " + l;
+    return out;
+}
+
 // one validation of the file as it is on disk, in a session opened with `mode`
 std::string validate_in(nix::FileMode mode) {
     close_raw();
-    if (nix_open) { nf.close(); nix_open = false; }
+    close_nix();
     std::string out;
     try {
         nix::File f = nix::File::open(fname, mode);
         try {
-            nix::valid::Result r = f.validate();
-            std::map<std::string, size_t> ord;
-            for (size_t i = 0; i < ents.size(); i++) ord[ents[i].id] = i;
-            std::vector<std::string> lines;
-            auto one = [&](const char *k, const nix::valid::Message &m) {
-                std::string who;
-                if (m.id == "unknown") who = "unknown";
-                else if (ord.count(m.id)) who = std::to_string(ord[m.id]);
-                else who = "?" + std::to_string(m.id.size());     // an id the script never created
-                lines.push_back(std::string(k) + ":" + who + ":" + enc_str(m.msg));
-            };
-            for (auto &m : r.getErrors()) one("E", m);
-            for (auto &m : r.getWarnings()) one("W", m);
-            std::sort(lines.begin(), lines.end());
-            out = std::to_string(lines.size());
-            for (auto &l : lines) out += " " + l;
+            out = render(f.validate());
         } catch (...) {
             out = "THROWS:" + classify();
         }
@@ -303,7 +347,7 @@ nix::Property prop_of(const Ent &e) {
 
 std::string do_entities(const std::string &mode) {
     close_raw();
-    if (nix_open) { nf.close(); nix_open = false; }
+    close_nix();
     nf = nix::File::open(fname, mode == "ro" ? nix::FileMode::ReadOnly : nix::FileMode::ReadWrite);
     nix_open = true;
     Probe pr;
@@ -363,8 +407,7 @@ std::string do_entities(const std::string &mode) {
     nix::valid::Result whole = nf.validate();
     pr.accessors(whole);
     bool walk = Probe::same(cat.getErrors(), whole.getErrors()) && Probe::same(cat.getWarnings(), whole.getWarnings());
-    nf.close();
-    nix_open = false;
+    close_nix();
     std::sort(pr.toks.begin(), pr.toks.end());
     std::string out = std::string("walk=") + (walk ? "1" : "0") + " acc=" + (pr.acc ? "1" : "0") + " ids=" + (pr.ids ? "1" : "0") +
                       " n=" + std::to_string(pr.calls);
@@ -376,14 +419,19 @@ std::string handle(const std::vector<std::string> &t) {
     const std::string &c = t[0];
     if (c == "new") {
         close_raw();
-        if (nix_open) { nf.close(); nix_open = false; }
+        close_nix();
         ents.clear();
+        ents.reserve(4096);            // handles are cached by the address of the entity record
         fname = workdir + "/c19.nix";
         nf = nix::File::open(fname, nix::FileMode::Overwrite);
         nix_open = true;
         return "-";
     }
     if (c == "validate") return do_validate();
+    if (c == "vlive") {                 // File::validate() in the session that is open (kept-alive handles), no reopen
+        need_nix();
+        return render(nf.validate());
+    }
     if (c == "entities") return do_entities(t.at(1));
     if (c == "h5") {
         need_raw();
@@ -461,7 +509,9 @@ std::string handle(const std::vector<std::string> &t) {
         add('m', g.id(), pb.path + "/multi_tags/" + t.at(2), {pb.chain[0], t.at(2)}, (long)dec_u64(t.at(1)));
     } else if (c == "tunits") {
         Ent &e = ent(t.at(1));
-        if (e.kind == 't') tg(e).units(strs(t, 2)); else mtg(e).units(strs(t, 2));
+        std::vector<std::string> u = strs(t, 2);
+        if (u.empty()) { if (e.kind == 't') tg(e).units(nix::none); else mtg(e).units(nix::none); }
+        else if (e.kind == 't') tg(e).units(u); else mtg(e).units(u);
     } else if (c == "textent") {
         tg(ent(t.at(1))).extent(dbls(t, 2));
     } else if (c == "mext") {
@@ -508,6 +558,64 @@ std::string handle(const std::vector<std::string> &t) {
         std::vector<std::string> ch(e.chain.begin(), e.chain.end() - 1);
         Ent tmp{'S', "", "", ch, -1};
         sec(tmp).getProperty(e.chain.back()).unit(dec_str(t.at(2)));
+    } else if (c == "dnounit") {
+        nix::Dimension d = arr(ent(t.at(1))).getDimension(dec_u64(t.at(2)));
+        if (d.dimensionType() == nix::DimensionType::Range) d.asRangeDimension().unit(nix::none);
+        else d.asSampledDimension().unit(nix::none);
+    } else if (c == "anounit") {
+        arr(ent(t.at(1))).unit(nix::none);
+    } else if (c == "anopoly") {
+        arr(ent(t.at(1))).polynomCoefficients(nix::none);
+    } else if (c == "anoorigin") {
+        arr(ent(t.at(1))).expansionOrigin(nix::none);
+    } else if (c == "dlabels") {
+        nix::SetDimension d = arr(ent(t.at(1))).getDimension(dec_u64(t.at(2))).asSetDimension();
+        std::vector<std::string> l = strs(t, 3);
+        if (l.empty()) d.labels(nix::none); else d.labels(l);
+    } else if (c == "dticks") {
+        arr(ent(t.at(1))).getDimension(dec_u64(t.at(2))).asRangeDimension().ticks(dbls(t, 3));
+    } else if (c == "dinterval") {
+        arr(ent(t.at(1))).getDimension(dec_u64(t.at(2))).asSampledDimension().samplingInterval(dec_dbl(t.at(3)));
+    } else if (c == "dnooffset") {
+        arr(ent(t.at(1))).getDimension(dec_u64(t.at(2))).asSampledDimension().offset(nix::none);
+    } else if (c == "frows") {
+        frm(ent(t.at(1))).rows(dec_u64(t.at(2)));
+    } else if (c == "aextent") {
+        size_t rank = (size_t)dec_u64(t.at(2));
+        nix::NDSize shape(rank, 0);
+        for (size_t i = 0; i < rank; i++) shape[i] = dec_u64(t.at(3 + i));
+        arr(ent(t.at(1))).dataExtent(shape);
+    } else if (c == "deldims") {
+        arr(ent(t.at(1))).deleteDimensions();
+    } else if (c == "fdata") {
+        feat_of(ent(t.at(1))).data(arr(ent(t.at(2))));
+    } else if (c == "mpositions") {
+        mtg(ent(t.at(1))).positions(arr(ent(t.at(2))));
+    } else if (c == "pnounit") {
+        prop_of(ent(t.at(1))).unit(nix::none);
+    } else if (c == "pvalues") {
+        size_t n = (size_t)dec_u64(t.at(2));
+        nix::Property pr = prop_of(ent(t.at(1)));
+        if (n == 0) pr.deleteValues();
+        else {
+            std::vector<nix::Variant> vals;
+            for (size_t i = 0; i < n; i++) vals.push_back(nix::Variant(2.5 + i));
+            pr.values(vals);
+        }
+    } else if (c == "etype") {
+        Ent &e = ent(t.at(1));
+        switch (e.kind) {
+        case 'b': blk(e).type(t.at(2)); break;
+        case 'a': arr(e).type(t.at(2)); break;
+        case 't': tg(e).type(t.at(2)); break;
+        case 'm': mtg(e).type(t.at(2)); break;
+        case 's': src(e).type(t.at(2)); break;
+        case 'S': sec(e).type(t.at(2)); break;
+        default: throw std::logic_error("bad etype target");
+        }
+    } else if (c == "unref") {
+        Ent &e = ent(t.at(1));
+        if (e.kind == 't') tg(e).removeReference(arr(ent(t.at(2)))); else mtg(e).removeReference(arr(ent(t.at(2))));
     } else {
         throw std::logic_error("bad command " + c);
     }
@@ -522,6 +630,6 @@ int main(int argc, char **argv) {
     H5Eset_auto2(H5E_DEFAULT, nullptr, nullptr);
     int rc = run_file(argv[1], handle);
     close_raw();
-    if (nix_open) nf.close();
+    close_nix();
     return rc;
 }
